@@ -46,7 +46,7 @@ func runRace(p *Prop, b *Batch, n int, verifSeed uint64, a *agg, lanes int, dead
 				w.stop()
 				if r.Crashed {
 					kind, frame := crashFrame(r.Stderr)
-					r.V = &Violation{Oracle: "no-crash", Sig: p.ID + "/" + kind + "/" + frame, Msg: "worker process died during the run:\n" + tail(r.Stderr, 1500)}
+					r.V = &Violation{Oracle: "no-crash", Sig: p.ID + "/" + kind + "/" + frame, Msg: "worker process died during the run:\n" + headOf(r.Stderr, 1800)}
 					r.Engine = b.Engine
 				}
 				a.add(b, r)
@@ -70,7 +70,7 @@ func replayRace(p *Prop, path, engine string, knobs map[string]string, env []str
 		}
 		if r.Crashed {
 			kind, frame := crashFrame(r.Stderr)
-			r.V = &Violation{Oracle: "no-crash", Sig: p.ID + "/" + kind + "/" + frame, Msg: tail(r.Stderr, 1500)}
+			r.V = &Violation{Oracle: "no-crash", Sig: p.ID + "/" + kind + "/" + frame, Msg: headOf(r.Stderr, 1800)}
 		}
 		if r.V != nil {
 			fmt.Printf("VIOLATION property=%s replay=%s\n  signature: %s (recorded %s; attempt %d of 5)\n  %s\n", p.ID, path, r.V.Sig, sig, attempt, strings.ReplaceAll(r.V.Msg, "\n", "\n  "))
@@ -182,7 +182,7 @@ func runXSeed(p *Prop, b *Batch, n int, verifSeed uint64, a *agg, lanes int, tie
 				for _, r := range rs {
 					if r.Crashed {
 						kind, frame := crashFrame(r.Stderr)
-						r.V = &Violation{Oracle: "no-crash", Sig: p.ID + "/" + kind + "/" + frame, Msg: "worker process died during the run:\n" + tail(r.Stderr, 1500)}
+						r.V = &Violation{Oracle: "no-crash", Sig: p.ID + "/" + kind + "/" + frame, Msg: "worker process died during the run:\n" + headOf(r.Stderr, 1800)}
 						r.Engine = b.Engine
 						a.add(b, r)
 						bad = true
